@@ -134,6 +134,28 @@ func (env *ExprEnv) callExpr(e *ast.CallExpr) Val {
 		return boolVal(sAnd(sNot(sEq(x.S, "0")), sEq(sApp(t.ifTag(), x.S), sInt(int64(t.eng.tagOf(T))))))
 	case "background": // the value returned by context.Background()
 		return Val{K: KIface, S: t.declare("ctx:background", "Int")}
+	case "implements": // implements(x, I): the dynamic type of interface value x implements interface I
+		x := arg(0)
+		T := env.resolveType(e.Args[1])
+		if T == nil {
+			return env.fail("implements: unknown interface %s", exprString(e.Args[1]))
+		}
+		xx := x
+		xx.T = nil
+		xx.Dyn = nil
+		return boolVal(t.implementsTerm(xx, T))
+	case "asiface": // asiface(p): the interface value holding pointer p (dynamic type = static type of p)
+		x := arg(0)
+		if x.T == nil {
+			return env.fail("asiface: untyped value")
+		}
+		return Val{K: KIface, S: sApp(t.mkIf(), sInt(int64(t.eng.tagOf(x.T))), x.S), Dyn: x.T}
+	case "ismethod": // the ghost identity of an interface method call (never a real function value)
+		f := arg(0)
+		return boolVal(sEq(sApp(t.fkind(), f.S), "3"))
+	case "payload": // the reference held by an interface value
+		x := arg(0)
+		return Val{K: KRef, S: sApp(t.ifVal(), x.S)}
 	case "strof": // string held in an interface value
 		x := arg(0)
 		return Val{K: KStr, S: sApp(t.ifVal(), x.S), T: types.Typ[types.String]}
@@ -186,6 +208,41 @@ func (env *ExprEnv) callExpr(e *ast.CallExpr) Val {
 		}
 		name := t.oargName(j, kind)
 		return Val{K: kind, S: sApp("select", sApp("select", t.lookup(env.st, name), f.S), k), T: types.Typ[types.Int]}
+	case "lastret", "lastreti", "lastretb": // result of the most recent call of f (no index arithmetic)
+		f := arg(0)
+		j := 0
+		if len(e.Args) > 1 {
+			j = constInt(e.Args[1])
+		}
+		k := sApp("select", t.callsArr(env.st), f.S)
+		switch fname {
+		case "lastreti":
+			return Val{K: KIface, S: t.oretTerm(f.S, k, j, KIface)}
+		case "lastretb":
+			return boolVal(t.oretTerm(f.S, k, j, KBool))
+		}
+		return intVal(t.oretTerm(f.S, k, j, KInt))
+	case "lastarg": // j-th recorded argument of the most recent call of f
+		f := arg(0)
+		j := 0
+		if len(e.Args) > 1 {
+			j = constInt(e.Args[1])
+		}
+		k := sApp("select", t.callsArr(env.st), f.S)
+		name := t.oargName(j, KInt)
+		return intVal(sApp("select", sApp("select", t.lookup(env.st, name), f.S), k))
+	case "retabs": // result of the call number k (absolute) of f
+		f, k := arg(0), arg(1)
+		return intVal(t.oretTerm(f.S, k.S, 0, KInt))
+	case "reti_arg": // recorded argument viewed as an interface value
+		f, i := arg(0), arg(1)
+		j := 0
+		if len(e.Args) > 2 {
+			j = constInt(e.Args[2])
+		}
+		k := "(+ " + sApp("select", t.callsArr(env.callBase), f.S) + " " + i.S + ")"
+		name := t.oargName(j, KIface)
+		return Val{K: KIface, S: sApp("select", sApp("select", t.lookup(env.st, name), f.S), k)}
 	case "tickof": // logical time of the i-th call of f since entry
 		f, i := arg(0), arg(1)
 		k := "(+ " + sApp("select", t.callsArr(env.callBase), f.S) + " " + i.S + ")"
@@ -279,6 +336,29 @@ func (env *ExprEnv) callExpr(e *ast.CallExpr) Val {
 		k := constInt(e.Args[0])
 		t.regArray("$g:sel", "(Array Int Int)")
 		return intVal(sApp("select", t.lookup(env.st, "$g:sel"), sInt(int64(k))))
+	case "canceled": // canceled(ctx): the context has been observed / made cancelled (ghost, monotone)
+		c := arg(0)
+		t.regArray("$g:canc", "(Array Int Bool)")
+		return boolVal(sApp("select", t.lookup(env.st, "$g:canc"), c.S))
+	case "atomval": // atomval(owner, "field", kind): current value of the atomic cell field of owner (kind: bool | ref | int)
+		x := arg(0)
+		fld, _ := strconv.Unquote(exprString(e.Args[1]))
+		kd, _ := strconv.Unquote(exprString(e.Args[2]))
+		base := x.T
+		if p := derefType(base); p != nil {
+			base = p
+		}
+		prefix := typeKey(base) + "." + fld
+		switch kd {
+		case "bool":
+			t.regArray(prefix+".v#b", "(Array Int Bool)")
+			return boolVal(sApp("select", t.lookup(env.st, prefix+".v#b"), x.S))
+		case "int":
+			t.regArray(prefix+".v", "(Array Int Int)")
+			return intVal(sApp("select", t.lookup(env.st, prefix+".v"), x.S))
+		}
+		t.regArray(prefix+".v", "(Array Int Int)")
+		return Val{K: KRef, S: sApp("select", t.lookup(env.st, prefix+".v"), x.S)}
 	case "fired":
 		c := arg(0)
 		t.regArray("$timerfired", "(Array Int Bool)")
